@@ -222,6 +222,21 @@ class Parser:
         k, v, _ = self.peek()
         if k != 'id':
             return False
+        if v == 'decltype' and self.at('(', 1):
+            # decltype(e) name ...
+            depth = 0; j = 1
+            while True:
+                t = self.peek(j)
+                if t[0] == 'eof':
+                    return False
+                if t[1] == '(':
+                    depth += 1
+                elif t[1] == ')':
+                    depth -= 1
+                    if depth == 0:
+                        break
+                j += 1
+            return self.peek(j + 1)[0] == 'id' and self.peek(j + 2)[1] in ('=', ';', ',', '(', '{')
         if v in ('auto', 'const', 'bool', 'int', 'unsigned', 'static', 'constexpr', 'type_id'):
             return True
         if v in ('return', 'if', 'for', 'while', 'else', 'break', 'continue', 'this', 'new', 'delete', 'sizeof', 'nullptr', 'true', 'false'):
@@ -251,6 +266,22 @@ class Parser:
             if self.at('const') or self.at('static') or self.at('constexpr') or self.at('unsigned'):
                 parts.append(self.next()[1]); continue
             break
+        if self.at('decltype') and self.at('(', 1):
+            self.next(); self.next()
+            depth = 1; txt = []
+            while depth:
+                t = self.next()
+                if t[1] == '(':
+                    depth += 1
+                elif t[1] == ')':
+                    depth -= 1
+                    if depth == 0:
+                        break
+                txt.append(t[1])
+            parts.append('decltype(' + ''.join(txt) + ')')
+            while self.at('*') or self.at('&') or self.at('const'):
+                parts.append(self.next()[1])
+            return ' '.join(parts)
         name = self.qualified_name()
         parts.append(name)
         if self.at('<'):
